@@ -298,6 +298,10 @@ def rand_ops(rng, T, cf, kinds):
         else:
             W = W + rng.randint(1, 2)
             ops.append(('widen', W))
+    if rng.random() < 0.2:
+        # the matcher object has been used before: a fresh match() of some prefix (which may have stopped early, been
+        # pruned, ...) precedes the history; nothing of it may leak into the later calls
+        ops = [('match', rng.randint(1, T))] + ops
     return ops
 
 
@@ -322,7 +326,7 @@ PLAN = {
     #       allowed features of random instances, op kinds, companion runs)
     'C01': dict(mc='LatticeMC_C01', emit='LatticeMC_C01e', rnd=(1600, 12000), allow=('nodes', 'cuts', 'linked'), kinds=(), aux=()),
     'C02': dict(mc='LatticeMC_C02', emit='LatticeMC_ALLe', rnd=(700, 8000), allow=('ne', 'W', 'nodes', 'cuts', 'linked', 'skip', 'second'), kinds=('extend', 'widen'), aux=()),
-    'C03': dict(mc='LatticeMC_C03', emit='LatticeMC_ALLe', rnd=(400, 6000), allow=('ne', 'W', 'nodes', 'cuts', 'linked', 'skip', 'second'), kinds=('extend', 'widen'), aux=()),
+    'C03': dict(mc='LatticeMC_C03', emit='LatticeMC_C03e', rnd=(400, 6000), allow=('ne', 'W', 'nodes', 'cuts', 'linked', 'skip', 'second'), kinds=('extend', 'widen'), aux=()),
     'C04': dict(mc='LatticeMC_C04', emit='LatticeMC_ALLe', rnd=(800, 8000), allow=('ne', 'W', 'nodes', 'cuts', 'linked', 'skip', 'second'), kinds=('extend', 'widen'), aux=()),
     'C05': dict(mc='LatticeMC_C05', emit='LatticeMC_ALLe', rnd=(400, 6000), allow=('ne', 'W', 'nodes', 'cuts', 'linked', 'skip', 'second'), kinds=('extend', 'widen'), aux=()),
     'C06': dict(mc='LatticeMC_C06', emit='LatticeMC_C06e', rnd=(1800, 12000), allow=('ne', 'nodes', 'cuts', 'linked', 'skip'), kinds=(), aux=('C06',)),
